@@ -21,6 +21,7 @@ LEVEL_TEXT = ('static: shape table vs reference and docstring, encoder append or
               'values between breakpoints are not decided.')
 LEVEL_NOTE = 'reference shapes/breakpoints from the server (SC_Env / EnvGen help) kept in the rule module'
 LEVEL_TEXT_ADD = ' Also: formats are not memoized, constructors tolerate list parameters and copy their point lists.'
+LEVEL_TEXT_ADD += ' Rounds e-f: the evaluator advances over every stage unconditionally (no skipped zero-duration stage).'
 LEVEL_TEXT = (globals().get('LEVEL_TEXT') or EXPLANATION) + LEVEL_TEXT_ADD
 TECHNIQUE = 'static analysis: table agreement + append-order extraction + AST normal-form comparison of constructor breakpoints'
 
